@@ -117,6 +117,12 @@ every expected rule fired; "exactly once and no other" is `firingsOk` (no-loop o
 def exactOk (rules : List Rule) (r : Ref) (names : List Nat) : Bool :=
   !(quietRules rules && r.live.all (fun f => r.fresh.contains f.1)) || (expectedRules rules r).all names.contains
 
+/-- **exactness after a firing** (`quiescent_fire_all_exact_after_firing`): whether or not the live facts were touched since the
+last fire_all, a call that fires anything fires every expected rule (after the first firing the engine re-evaluates every
+unfired rule on every live fact of its type) -/
+def exactAfterOk (rules : List Rule) (r : Ref) (names : List Nat) : Bool :=
+  !(quietRules rules && !names.isEmpty) || (expectedRules rules r).all names.contains
+
 def setData (h : Nat) (d : Data) : List (Nat × Nat × Data) → List (Nat × Nat × Data)
   | [] => []
   | (k, ty, x) :: t => if k == h then (k, ty, d) :: t else (k, ty, x) :: setData h d t
@@ -144,10 +150,72 @@ def ostep (rules : List Rule) (r : Ref) (op : Op) (o : Obs) : Option Ref :=
       -- contents after the run are taken from the view (write-back is order dependent); handles/types must be `L`
       let live' := o.view.contents
       if viewsOk L o.view && live'.map (fun f => (f.1, f.2.1)) == L.map (fun f => (f.1, f.2.1)) &&
-         (!(rules.all (fun rule => rule.action.sets.isEmpty)) || live' == L) && exactOk rules r names then
+         (!(rules.all (fun rule => rule.action.sets.isEmpty)) || live' == L) && exactOk rules r names &&
+         exactAfterOk rules r names then
         some { r with live := live', firedSince := fs, fresh := [] }
       else none
   | _, _ => none
+
+/-! ### the loader path: an engine whose rules came through `GrlReteLoader` (their closures carry no recorder)
+
+The same clauses, as far as they can be evaluated without the recorder log: results of insert / update / retract / reset and the
+views after them as in `ostep`; for `fire_all` the returned names only. -/
+
+/-- names returned by one `fire_all`: every rule is known, a no-loop rule fires at most once between resets; returns the
+rules fired since the last reset -/
+def namesOk (rules : List Rule) : List Nat → List Nat → Option (List Nat)
+  | fs, [] => some fs
+  | fs, n :: ns =>
+    match rules.find? (·.name == n) with
+    | some r => if r.noLoop && fs.contains n then none else namesOk rules (fs ++ [n]) ns
+    | none => none
+
+/-- no action changes or retracts anything: working memory is the same before, during and after `fire_all` -/
+def inertRules (rules : List Rule) : Bool := rules.all (fun r => r.action.sets.isEmpty && !r.action.retract)
+
+/-- "fires no other rule" when working memory cannot change during the call: every fired rule is satisfied by a live fact of
+its type -/
+def firedSatisfied (rules : List Rule) (live : List (Nat × Nat × Data)) (names : List Nat) : Bool :=
+  names.all (fun n => rules.any (fun r => r.name == n && live.any (fun f => f.2.1 == r.ty && r.node.eval f.2.1 f.2.2)))
+
+def ostepG (rules : List Rule) (r : Ref) (op : Op) (o : Obs) : Option Ref :=
+  match op, o.res with
+  | .fire, .fired names [] =>
+    match namesOk rules r.firedSince names with
+    | none => none
+    | some fs =>
+      let live' := o.view.contents
+      -- the views agree among themselves; actions never insert: every live fact was live before with the same type; without
+      -- a retracting rule the live set is unchanged, without any assignment the contents are
+      if viewsOk live' o.view &&
+         live'.all (fun f => r.live.any (fun g => g.1 == f.1 && g.2.1 == f.2.1)) &&
+         (rules.any (·.action.retract) || live'.map (·.1) == r.live.map (·.1)) &&
+         (!(rules.all (fun rule => rule.action.sets.isEmpty)) ||
+            live'.all (fun f => r.live.any (fun g => g == f))) &&
+         (!inertRules rules || firedSatisfied rules r.live names) &&
+         exactOk rules r names && exactAfterOk rules r names then
+        some { r with live := live', firedSince := fs, fresh := [] }
+      else none
+  | .fire, _ => none
+  | _, _ => ostep rules r op o
+
+def orunG (rules : List Rule) : Ref → List Op → List Obs → Bool
+  | _, [], [] => true
+  | r, op :: ops, o :: os =>
+    match ostepG rules r op o with
+    | some r' => orunG rules r' ops os
+    | none => false
+  | _, _, _ => false
+
+/-- the two engines side by side: for quiet rule sets that the GRL round trip leaves unchanged, every `fire_all` call fires the
+same set of rules in both (the order among equal saliences comes from `Instant`s and hash iteration) -/
+def sameFired : List Obs → List Obs → Bool
+  | [], [] => true
+  | a :: as, b :: bs =>
+    (match a.res, b.res with
+     | .fired n1 _, .fired n2 _ => sortNat n1 == sortNat n2
+     | _, _ => true) && sameFired as bs
+  | _, _ => false
 
 def orun (rules : List Rule) : Ref → List Op → List Obs → Bool
   | _, [], [] => true
